@@ -227,6 +227,115 @@ impl VisitProgram for OutputOnly {
     }
 }
 
+/// An output whose `combine` is NOT associative: it records the shape of the fold. The default is the empty
+/// shape and combines as the identity, so only the association of actual callback results shows.
+#[derive(Clone, Debug, PartialEq)]
+pub enum Tree {
+    Leaf(String),
+    Pair(Box<Tree>, Box<Tree>),
+}
+#[derive(Clone, Debug, PartialEq, Default)]
+pub struct Shape(pub Option<Tree>);
+impl Combine for Shape {
+    fn combine(self, other: Self) -> Self {
+        match (self.0, other.0) {
+            (None, x) => Shape(x),
+            (x, None) => Shape(x),
+            (Some(a), Some(b)) => Shape(Some(Tree::Pair(Box::new(a), Box::new(b)))),
+        }
+    }
+}
+impl Tree {
+    fn text(&self, out: &mut String, budget: &mut usize) {
+        if *budget == 0 {
+            return;
+        }
+        match self {
+            Tree::Leaf(s) => {
+                *budget -= 1;
+                out.push_str(s)
+            }
+            Tree::Pair(a, b) => {
+                out.push('(');
+                a.text(out, budget);
+                out.push(' ');
+                b.text(out, budget);
+                out.push(')');
+            }
+        }
+    }
+}
+pub struct ShapeRecorder;
+impl Visit for ShapeRecorder {
+    type Output = Shape;
+    type Error = Injected;
+}
+fn sleaf(t: String) -> Result<Shape, Injected> {
+    Ok(Shape(Some(Tree::Leaf(t))))
+}
+impl VisitExpr for ShapeRecorder {
+    fn visit_poetic_number_literal_elem(&mut self, p: &PoeticNumberLiteralElem) -> visit::Result<Self> {
+        sleaf(match p {
+            PoeticNumberLiteralElem::Word(w) => format!("poetic:word:{}", w),
+            PoeticNumberLiteralElem::WordSuffix(w) => format!("poetic:suffix:{}", w),
+            PoeticNumberLiteralElem::Dot => "poetic:dot".to_string(),
+        })
+    }
+    fn visit_binary_operator(&mut self, o: BinaryOperator) -> visit::Result<Self> {
+        sleaf(format!("op:{:?}", o))
+    }
+    fn visit_unary_operator(&mut self, o: UnaryOperator) -> visit::Result<Self> {
+        sleaf(format!("un:{:?}", o))
+    }
+    fn visit_literal_expression(&mut self, e: &WithRange<LiteralExpression>) -> visit::Result<Self> {
+        sleaf(lit_text(&e.0))
+    }
+    fn visit_pronoun(&mut self, _: SourceRange) -> visit::Result<Self> {
+        sleaf("pronoun".to_string())
+    }
+    fn visit_simple_identifier(&mut self, n: WithRange<&SimpleIdentifier>) -> visit::Result<Self> {
+        sleaf(format!("simple:{}", (n.0).0))
+    }
+    fn visit_common_identifier(&mut self, n: WithRange<&CommonIdentifier>) -> visit::Result<Self> {
+        sleaf(format!("common:{} {}", (n.0).0, (n.0).1))
+    }
+    fn visit_proper_identifier(&mut self, n: WithRange<&ProperIdentifier>) -> visit::Result<Self> {
+        sleaf(format!("proper:{}", (n.0).0.join(" ")))
+    }
+}
+
+/// does the pattern produce any event at all (the same for every alternative)
+fn pat_is_empty(p: &Pat) -> bool {
+    match p {
+        Pat::Leaf(_) => false,
+        Pat::Seq(ps) => ps.iter().all(pat_is_empty),
+        Pat::Alt(ps) => ps.first().map_or(true, pat_is_empty),
+    }
+}
+
+/// Is `tree` the left-to-right fold of the pattern: a node's result is ((c1 . c2) . c3) ... over the results of its
+/// children that returned anything, each child's result being the fold of that child.
+fn shape_matches(p: &Pat, tree: &Tree) -> bool {
+    match p {
+        Pat::Leaf(s) => matches!(tree, Tree::Leaf(t) if t == s),
+        Pat::Alt(ps) => ps.iter().any(|q| shape_matches(q, tree)),
+        Pat::Seq(ps) => {
+            let kids: Vec<&Pat> = ps.iter().filter(|q| !pat_is_empty(q)).collect();
+            seq_matches(&kids, tree)
+        }
+    }
+}
+fn seq_matches(kids: &[&Pat], tree: &Tree) -> bool {
+    match kids.len() {
+        0 => false,
+        1 => shape_matches(kids[0], tree),
+        n => match tree {
+            Tree::Pair(l, r) => shape_matches(kids[n - 1], r) && seq_matches(&kids[..n - 1], l),
+            Tree::Leaf(_) => false,
+        },
+    }
+}
+
 // ------------------------------------------------------------------------- model traversal
 
 #[derive(Clone, Debug)]
@@ -457,10 +566,9 @@ impl T {
                 Pat::Seq(v)
             }
             m::Stmt::Function { name, params, body } => {
-                let mut v = vec![self.name(name)];
-                v.extend(params.iter().map(|p| self.name(p)));
-                v.push(self.block(body));
-                Pat::Seq(v)
+                // (grouped as the code folds it: name . (parameters . body))
+                let ps = Pat::Seq(params.iter().map(|p| self.name(p)).collect());
+                Pat::Seq(vec![self.name(name), Pat::Seq(vec![ps, self.block(body)])])
             }
             m::Stmt::Call { name, args } => self.call(name, args),
         }
@@ -810,6 +918,37 @@ pub fn check_tree(ctx: &mut Ctx, prog: &Program, src: &str, exhaustive_k: bool, 
             }
             Err(_) => {
                 ctx.violation("fold_differs:marked", "a walk without injected failure returned an error", case(NK::None));
+                return;
+            }
+        }
+    }
+    // "folds the results left to right": with a combine that is not associative the result shows how it was folded
+    {
+        let pat = T { probe: NK::None }.program(&model);
+        let mut r = ExprVisitorRunner::with_inner(ShapeRecorder);
+        ctx.eval();
+        match r.visit_program(prog) {
+            Ok(Shape(None)) => {
+                if !pat_is_empty(&pat) {
+                    ctx.violation("fold_shape_differs", "the walk returned the empty result for a tree with leaves", case(NK::None).with("visitor", Json::s("ShapeRecorder")));
+                    return;
+                }
+            }
+            Ok(Shape(Some(tree))) => {
+                if !shape_matches(&pat, &tree) {
+                    let mut t = String::new();
+                    tree.text(&mut t, &mut 60);
+                    ctx.violation(
+                        "fold_shape_differs",
+                        &format!("with a non-associative combine the result is not the left-to-right fold of the children's results; result (cut): {}", t),
+                        case(NK::None).with("visitor", Json::s("ShapeRecorder")),
+                    );
+                    return;
+                }
+                ctx.count("fold_shapes_matched");
+            }
+            Err(_) => {
+                ctx.violation("fold_differs:shape", "a walk without injected failure returned an error", case(NK::None));
                 return;
             }
         }
